@@ -150,6 +150,13 @@ def checkAll (y : Sys) (fuel : Nat) (P : State → Bool) : Bool :=
   | some vs => vs.all P
   | none => false
 
+/-- one exploration for a universal and an existential claim: `P` holds in every reachable state and `Q` in some
+(false also when the fuel runs out) -/
+def checkAllAny (y : Sys) (fuel : Nat) (P Q : State → Bool) : Bool :=
+  match explore y fuel with
+  | some vs => vs.all P && vs.any Q
+  | none => false
+
 /-- the set of the states of a list -/
 def trieOf : List State → Trie
   | [] => Trie.full trieDepth
@@ -228,5 +235,26 @@ def canFinish (y : Sys) (fuel : Nat) (i : Nat) (s : State) : Bool :=
   match exploreG (soloNext y i) [s] fuel with
   | some vs => vs.any (halted y · i)
   | none => false
+
+/-! ## Can a group of processes bring the system to a goal on its own -/
+
+/-- non-panicking strict moves of the processes of the group `g` (everybody else frozen, no help from the environment) -/
+def groupNext (y : Sys) (g : List Nat) (s : State) : List State := g.flatMap fun i => soloNext y i s
+
+/-- depth-first search with early exit: is a state satisfying `goal` taken off the work list within `fuel` expansions -/
+def searchLoop (succ : State → List State) (goal : State → Bool) : Nat → Acc → Bool
+  | 0, _ => false
+  | fuel + 1, a => match a.work with
+    | [] => false
+    | s :: rest =>
+      bif goal s then true
+      else searchLoop succ goal fuel (addNew (succ s) { tr := a.tr, vs := a.vs, work := rest })
+
+/-- from `s`, the processes of `g` can reach a state satisfying `goal` moving through strict steps only (a depth-first
+search that stops at the first goal state; `false` also when more than `fuel` states had to be expanded: the answer
+`true` is what the soundness theorem `canReach_sound` is about).  `canFinish y fuel i` is the special case `g = [i]`,
+`goal = halted y · i` with an exhaustive search. -/
+def canReach (y : Sys) (fuel : Nat) (g : List Nat) (goal : State → Bool) (s : State) : Bool :=
+  searchLoop (groupNext y g) goal fuel (addNew [s] { tr := Trie.full trieDepth, vs := [], work := [] })
 
 end Raft.Chan
